@@ -14,6 +14,7 @@ import (
 	"io"
 	"net/http"
 	"net/http/httptest"
+	"reflect"
 	"runtime"
 	"runtime/debug"
 	"strconv"
@@ -96,6 +97,62 @@ type harness struct {
 	http    *jsonrpc.HTTP
 	rec     *recorder
 	lastOut []byte // output of the last checkOne (single-threaded use only)
+	mdl     *model // reference model that knows the methods registered later on this server (nil: refModel)
+}
+
+// Go type of every parameter kind of the model.
+var goTypes = map[ptype]reflect.Type{
+	tInt: reflect.TypeFor[int](), tStr: reflect.TypeFor[string](), tBool: reflect.TypeFor[bool](), tPtrInt: reflect.TypeFor[*int](),
+	tPtrStr: reflect.TypeFor[*string](), tInts: reflect.TypeFor[[]int](), tStrs: reflect.TypeFor[[]string](),
+	tStruct: reflect.TypeFor[valStruct](), tPtrStruct: reflect.TypeFor[*valStruct](), tStructs: reflect.TypeFor[[]valStruct](),
+	tMapPtr: reflect.TypeFor[map[string]*valStruct](), tRaw: reflect.TypeFor[json.RawMessage](), tNoNull: reflect.TypeFor[noNull](),
+	tMapStruct: reflect.TypeFor[map[string]valStruct](), tReqStruct: reflect.TypeFor[reqStruct](),
+}
+
+// matrixMethod builds the handler of a signature-matrix method from its specification:
+// func([ctx context.Context,] p0 T0, ..., pn Tn) (any, *jsonrpc.Error), recording its invocation like the hand-written
+// handlers and returning the arguments it received as an array.
+func matrixMethod(r *recorder, sp *mspec) jsonrpc.Method {
+	var in []reflect.Type
+	if sp.ctx {
+		in = append(in, reflect.TypeFor[context.Context]())
+	}
+	m := jsonrpc.Method{Name: sp.name}
+	for _, p := range sp.params {
+		gt, ok := goTypes[p.t]
+		if !ok {
+			stats.HarnessError("no Go type for parameter kind %d", p.t)
+		}
+		in = append(in, gt)
+		m.Params = append(m.Params, jsonrpc.Parameter{Name: p.name, Optional: p.opt})
+	}
+	errT := reflect.TypeFor[*jsonrpc.Error]()
+	ft := reflect.FuncOf(in, []reflect.Type{reflect.TypeFor[any](), errT}, false)
+	name, hasCtx := sp.name, sp.ctx
+	m.Handler = reflect.MakeFunc(ft, func(args []reflect.Value) []reflect.Value {
+		if hasCtx {
+			if args[0].IsNil() {
+				r.ctx(name, nil)
+			}
+			args = args[1:]
+		}
+		vals := make([]any, len(args))
+		for i, a := range args {
+			vals[i] = a.Interface()
+		}
+		r.add(name, vals...)
+		var res any = vals
+		return []reflect.Value{reflect.ValueOf(&res).Elem(), reflect.Zero(errT)}
+	}).Interface()
+	return m
+}
+
+// register adds a drawn matrix method to the running server (and to the harness's own model).
+func (h *harness) register(sp *mspec) {
+	if err := h.srv.RegisterMethods(matrixMethod(h.rec, sp)); err != nil {
+		stats.HarnessError("RegisterMethods(%s): %v", sp.name, err)
+	}
+	h.mdl.extra[sp.name] = sp
 }
 
 func newHarness(poolSize int, yield bool) *harness {
@@ -185,8 +242,11 @@ func newHarness(poolSize int, yield bool) *harness {
 		{Name: "req", Params: []jsonrpc.Parameter{P("r", false)},
 			Handler: func(q reqStruct) (reqStruct, *jsonrpc.Error) { r.add("req", q); return q, nil }},
 	}
-	if len(methods) != len(methodSpecs) {
-		stats.HarnessError("method table and model disagree: %d vs %d", len(methods), len(methodSpecs))
+	if len(methods) != len(baseSpecs) {
+		stats.HarnessError("method table and model disagree: %d vs %d", len(methods), len(baseSpecs))
+	}
+	for _, sp := range matrixSpecs {
+		methods = append(methods, matrixMethod(r, sp))
 	}
 	for i, m := range methods {
 		sp := methodSpecs[i]
